@@ -191,6 +191,10 @@ def scenario_oracle_pr(obs):
                                                       f"delivered although only other channels abandoned messages")
         probes = [p[2] for p in obs["probes"] if p[0] == ep and p[1] == i]
         for p in probes:
+            if p not in got and ch["id"] in obs.get("complete_unordered_waiting", [[], []])[1 - ep]:
+                return ("unordered-message-stuck-behind-fragments",
+                        f"unordered channel id {ch['id']}: a complete message sent after the network healed sits in the peer's "
+                        "reassembly queue and is not delivered: it arrived while fragments of an abandoned message preceded it")
             if p not in got:
                 return ("no-recovery-after-healing", f"channel id {ch['id']} ({'PR' if pr(ch) else 'reliable'}): a "
                                                      f"message sent after the network healed was not delivered")
